@@ -476,9 +476,77 @@ def rule_done_reset(chk, prog):
         raise AnalysisBroken("layout constructors not found")
 
 
+def rule_fixed_relative(chk, prog):
+    """FixedRelativeConstraint: the recorded offsets are measured from the same shape the sub-constraints name as their left variable."""
+    from ..microai.interp import Interp, Obj, Vec, Oracle, Unsupported, AssertFail, default_obj
+    from fractions import Fraction
+    r = chk.rule("FIXED-RELATIVE-OFFSETS", "FixedRelativeConstraint's constructor interpreted for id lists given ascending, descending, shuffled and with "
+                 "duplicates: every sub-constraint (l, r, dim, offset) has offset = centre(r) - centre(l) in that dimension, the pairs are "
+                 "(smallest id, every other id) in both dimensions, each once -- an offset measured from another shape than l is still "
+                 "satisfiable, so a distorted group is enforced without any report", floor=4)
+    cands = [f for f in prog.all_functions() if f.kind == "ctor" and f.cls == "cola::FixedRelativeConstraint" and f.body is not None and len(f.params) == 3]
+    if len(cands) != 1:
+        raise AnalysisBroken("cola::FixedRelativeConstraint constructor not found")
+    fn = cands[0]
+    centres = {0: (5, 50), 1: (20, 10), 2: (-30, 70), 3: (80, 170), 4: (11, 13)}
+    for ids in ([1, 2, 3], [3, 2, 1], [3, 1, 2], [2, 4, 2, 0, 4]):
+        made = []
+        it = Interp(prog, Oracle([]))
+        it.ctor_hooks = {"cola::RelativeOffset": lambda it_, o, args, env, m=made: m.append([it_.ev(a, env) for a in args]),
+                         "cola::CompoundConstraint": lambda it_, o, args, env: None}
+        it.vhooks["vpsc::Rectangle::getCentreX"] = lambda it_, recv, args: Fraction(recv.f["_c"][0])
+        it.vhooks["vpsc::Rectangle::getCentreY"] = lambda it_, recv, args: Fraction(recv.f["_c"][1])
+        rs = Vec([Obj("vpsc::Rectangle", {"_c": centres[i]}) for i in range(5)], "vpsc::Rectangle *")
+        this = default_obj(prog, "cola::FixedRelativeConstraint", {})
+        this.f["_subConstraintInfo"] = Vec([], "cola::SubConstraintInfo *")
+        r.count()
+        inst = "ids %s" % ids
+        try:
+            it.call(fn, this, None, None, arg_values=[rs, Vec(list(ids), "unsigned int"), False])
+        except Unsupported as e:
+            raise AnalysisBroken("FixedRelativeConstraint constructor outside the interpreter subset (%s): %s" % (inst, e))
+        except AssertFail as e:
+            r.bad(inst, fn.where(), "assertion fails: %s" % e)
+            continue
+        first = min(ids)
+        want = sorted((first, j, d, Fraction(centres[j][d] - centres[first][d])) for j in sorted(set(ids)) if j != first for d in (0, 1))
+        got = sorted((a[0], a[1], int(a[2]), Fraction(a[3])) for a in made)
+        bad = None
+        if got != want:
+            wrong = [g for g in got if g not in want]
+            bad = "sub-constraints (l, r, dim, offset) = %s; expected %s" % ([(a, b, c, str(d)) for a, b, c, d in (wrong or got)][:3],
+                                                                            [(a, b, c, str(d)) for a, b, c, d in want][:3])
+        (r.bad if bad else r.ok)(inst, fn.where(), bad or "%d offsets" % len(got))
+
+
+def rule_both_axes(chk, prog):
+    r = chk.rule("BOTH-AXES-PROJECTED", "ConstrainedFDLayout::setPosition projects BOTH dimensions on every path (moveTo(HORIZONTAL) and moveTo(VERTICAL) "
+                 "cannot be skipped), whichever axes run(x, y) lays out: for an axis that is not being laid out this projection is the only "
+                 "thing that makes its coordinates satisfy the constraints of that dimension; run() calls setPosition after every descent "
+                 "step and computeDescentVectorOnBothAxes before it", floor=3)
+    fn = prog.fn("cola::ConstrainedFDLayout::setPosition")
+    g = CFG(fn)
+    for dimname in ("vpsc::HORIZONTAL", "vpsc::VERTICAL"):
+        mt = [c for c in calls(fn) if c.get("cname") == "cola::ConstrainedFDLayout::moveTo" and norm(call_args(c)[0]) in (dimname, dimname.split("::")[1])]
+        r.count()
+        w = g.exit_reachable_avoiding([c["id"] for c in mt]) if mt else []
+        (r.ok if w is None else r.bad)("setPosition: " + dimname.split("::")[1], fn.loc(mt[0]) if mt else fn.where(), "" if w is None else
+                                       "setPosition can return without projecting the %s dimension%s" % (dimname.split("::")[1].lower(), (" (" + g.describe(w) + ")") if w else ""))
+    k = 0
+    for q in ("cola::ConstrainedFDLayout::run", "cola::ConstrainedFDLayout::computeDescentVectorOnBothAxes"):
+        f = prog.fn(q)
+        sp = [c for c in calls(f) if c.get("cname") == "cola::ConstrainedFDLayout::setPosition"]
+        k += len(sp)
+    r.count()
+    (r.ok if k >= 2 else r.bad)("setPosition is used by the descent loop", prog.fn("cola::ConstrainedFDLayout::run").where(), "" if k >= 2 else
+                                "run / computeDescentVectorOnBothAxes no longer project through setPosition")
+
+
 def run(chk):
     prog = chk.load()
     cg = CallGraph(prog)
+    chk.guard(rule_both_axes, chk, prog)
+    chk.guard(rule_fixed_relative, chk, prog)
     chk.guard(rule_done_reset, chk, prog)
     chk.guard(rule_translators, chk, prog)
     chk.guard(rule_creator, chk, prog)
